@@ -23,16 +23,19 @@ pub struct ConnCfg {
     pub write_buf: Option<usize>,
     /// gate whose opening is the graceful-shutdown signal
     pub shutdown_gate: Option<usize>,
+    /// virtual time that passes between the creation of the service (which starts the cached
+    /// clock) and the acceptance of the connection, so that the cached clock is stale by then
+    pub accept_delay_ms: u64,
 }
 
 impl ConnCfg {
     /// every timer off: the configuration under which stalls are judged
     pub fn no_timers() -> Self {
-        ConnCfg { keep_alive_s: None, req_timeout_ms: 0, disc_timeout_ms: 0, half_closed: true, write_buf: None, shutdown_gate: None }
+        ConnCfg { keep_alive_s: None, req_timeout_ms: 0, disc_timeout_ms: 0, half_closed: true, write_buf: None, shutdown_gate: None, accept_delay_ms: 0 }
     }
     /// keep-alive on but so long it never fires within a case
     pub fn persistent() -> Self {
-        ConnCfg { keep_alive_s: Some(1_000_000), req_timeout_ms: 0, disc_timeout_ms: 0, half_closed: true, write_buf: None, shutdown_gate: None }
+        ConnCfg { keep_alive_s: Some(1_000_000), req_timeout_ms: 0, disc_timeout_ms: 0, half_closed: true, write_buf: None, shutdown_gate: None, accept_delay_ms: 0 }
     }
 }
 
@@ -65,6 +68,12 @@ pub async fn open_on(cfg: &ConnCfg, w: W, io: ScriptIo, proto: Protocol) -> Driv
     let w3 = w.clone();
     let factory = b.finish(fn_service(move |req| handle(w3.clone(), req)));
     let svc = factory.new_service(()).await.expect("service init");
+    if cfg.accept_delay_ms > 0 {
+        // let the cached-clock task take its first (immediate) tick now, not after the delay
+        super::exec::breathe().await;
+        tokio::time::advance(Duration::from_millis(cfg.accept_delay_ms)).await;
+        super::exec::breathe().await;
+    }
     let fut = svc.call((io, proto, None));
     Driven::new(fut)
 }
@@ -72,7 +81,7 @@ pub async fn open_on(cfg: &ConnCfg, w: W, io: ScriptIo, proto: Protocol) -> Driv
 impl ConnCfg {
     pub fn to_json(&self) -> serde_json::Value {
         serde_json::json!({"keep_alive_s": self.keep_alive_s, "req_timeout_ms": self.req_timeout_ms, "disc_timeout_ms": self.disc_timeout_ms,
-            "half_closed": self.half_closed, "write_buf": self.write_buf, "shutdown_gate": self.shutdown_gate})
+            "half_closed": self.half_closed, "write_buf": self.write_buf, "shutdown_gate": self.shutdown_gate, "accept_delay_ms": self.accept_delay_ms})
     }
     pub fn from_json(v: &serde_json::Value) -> Self {
         ConnCfg {
@@ -82,6 +91,7 @@ impl ConnCfg {
             half_closed: v["half_closed"].as_bool().unwrap_or(true),
             write_buf: v["write_buf"].as_u64().map(|x| x as usize),
             shutdown_gate: v["shutdown_gate"].as_u64().map(|x| x as usize),
+            accept_delay_ms: v["accept_delay_ms"].as_u64().unwrap_or(0),
         }
     }
 }
